@@ -523,7 +523,40 @@ func flipIfOK(o string) string {
 	return o
 }
 
+// c04KeywordPrefixed: bare literals that begin with a keyword, in both membership spellings
+func c04KeywordPrefixed(r *Run) {
+	d := map[string]interface{}{"Tags": []string{"notify", "ify", "note", "e", "inside", "side", "android"}, "S": "nothing-notify", "E": []string{}}
+	for _, w := range []string{"notify", "note", "nothing", "inside", "android", "isle", "orbit", "anyone", "allow", "matchesx", "containsx", "notx"} {
+		for _, sel := range []string{"Tags", "S", "E"} {
+			forms := map[string]string{"in": w + " in " + sel, "contains": sel + " contains " + w, "not in": w + " not in " + sel, "not contains": sel + " not contains " + w,
+				"not(in)": "not ( " + w + " in " + sel + " )", "not(contains)": "not ( " + sel + " contains " + w + " )"}
+			outs := map[string]string{}
+			trees := map[string]string{}
+			for k, e := range forms {
+				c := evalCase{expr: e, d: d, tag: "bexpr"}
+				if !c.parse() {
+					outs[k] = "NOPARSE"
+					continue
+				}
+				outs[k] = c.obs()
+				trees[k] = treeKey(c.ast)
+				r.Evaluations++
+				r.Model(c.cmd(), outs[k], c.desc())
+			}
+			r.Seen("kw|" + w + "|" + sel)
+			c := map[string]interface{}{"literal": w, "selector": sel, "outcomes": outs}
+			if outs["in"] != outs["contains"] || trees["in"] != trees["contains"] {
+				r.Violate("contains-is-in:outcome", "kw|"+w+"|"+sel, c, "`"+forms["in"]+"` "+outs["in"]+" but `"+forms["contains"]+"` "+outs["contains"])
+			}
+			if outs["not in"] != outs["not contains"] || outs["not in"] != flipIfOK(outs["in"]) || outs["not(in)"] != outs["not in"] || outs["not(contains)"] != outs["not contains"] {
+				r.Violate("complement:in", "kwneg|"+w+"|"+sel, c, fmt.Sprint(outs))
+			}
+		}
+	}
+}
+
 func runC04(r *Run) {
+	c04KeywordPrefixed(r)
 	r.Rule = "(selector, literal, datum) triples from the leaf-aware generator with 25% absent selectors, nil values, non-collection targets and ill-typed literals; for each of the four operator pairs and both in/contains spellings: predicate on the implementation: the negative form returns the negation of the positive form when that is not an error and an error exactly when it is; `S contains v` and `v in S` give equal trees and equal outcomes; `not (positive)` equals the negative form; all forms are also compared with the model; distinct = (pair, outcome of the positive form, leaf kind)"
 	n := 2000
 	if r.Tier == "thorough" {
